@@ -166,6 +166,7 @@ Out run_hybrid(const Req &r) {
         if (r.form == 0) std::tie(o.iters, o.resid) = S(r.f, o.x); else std::tie(o.iters, o.resid) = S(At, r.f, o.x);
     });
 }
+#if !C13_EIGEN      // Eigen refuses to mix float and double blocks (static assertion YOU_MIXED_DIFFERENT_NUMERIC_TYPES): no mixed-precision Eigen paths
 Out run_hybrid_mixed(const Req &r) {
     typedef make_solver<amg<HFB, runtime::coarsening::wrapper, runtime::relaxation::wrapper>, runtime::solver::wrapper<HB>> S6;
     return guarded([&](Out &o) {
@@ -190,7 +191,9 @@ Out run_mixed_block(const Req &r) {
         if (r.form == 0) std::tie(o.iters, o.resid) = S(F, X); else std::tie(o.iters, o.resid) = S(Ab, F, X);
     });
 }
-c13::Registrar r5("hybrid", b, BTYPE, run_hybrid), r6("hybrid_mixed", b, BTYPE, run_hybrid_mixed), r7("mixed_block", b, BTYPE, run_mixed_block);
+c13::Registrar r6("hybrid_mixed", b, BTYPE, run_hybrid_mixed), r7("mixed_block", b, BTYPE, run_mixed_block);
+#endif
+c13::Registrar r5("hybrid", b, BTYPE, run_hybrid);
 #endif
 
 #if C13_GROUP == 4
